@@ -71,7 +71,7 @@ def gen(rng, tier, index):
         "center": bool(rng.random() < 0.5),
         "mixing": float(gens.pick(rng, (0.1, 0.3, 0.5, 0.9, 1.0))),
         "k": int(rng.integers(1, min(n - 1, 5) + 1)),
-        "reg": gens.pick(rng, ("none", "krr", "krr", "krr_fitted", "precomputed")),
+        "reg": gens.pick(rng, ("none", "krr", "krr", "krr_fitted", "precomputed", "precomputed_noW", "precomputed_rawW")),
         "alpha": float(10.0 ** rng.uniform(-3, 0)),
         "past": bool(rng.random() < 0.3),  # the estimator object was configured and fitted differently before
         "Xd": rng.normal(size=(int(rng.integers(5, hi)), f)),
@@ -154,6 +154,20 @@ def run(case, j):
         W = np.linalg.solve(Kc + alpha * np.eye(n), Y2)
         reg_a = reg_b = "precomputed"
     Yhat = Kc @ W
+    if regk == "precomputed_noW":
+        # regressor="precomputed" with the weights left out (the library then takes lstsq(K, y, tol)) and the targets
+        # themselves handed over as y: legal, and K W is then only the part of y inside the range of K
+        wK = pc.spectrum(Kc)
+        if np.all((wK > 1e-6 * wK[0]) | (np.abs(wK) < 1e-14 * wK[0])):  # the cut of that lstsq is unambiguous
+            Yhat, W = Y2.copy(), None
+            j.note("precomputed_regressions_without_weights")
+        else:
+            regk = "precomputed"
+    elif regk == "precomputed_rawW":
+        # the caller's own kernel ridge on the raw kernel: with center=True the library's kernel is another one
+        W = np.linalg.solve(K + alpha * np.eye(n), Y2)
+        Yhat = K @ W
+        j.note("precomputed_regressions_from_the_raw_kernel")
     Kt = a * Kc + (1 - a) * (Yhat @ Yhat.T)
     w = pc.spectrum(Kt)
     gap_ok = pc.gap_guard(w, k)
@@ -163,9 +177,9 @@ def run(case, j):
 
     fit_Y = Y
     fit_kw = {}
-    if regk == "precomputed":
+    if regk.startswith("precomputed"):
         fit_Y = Yhat[:, 0] if np.ndim(Y) == 1 else Yhat
-        fit_kw = {"W": W}
+        fit_kw = {"W": W} if W is not None else {}
 
     est_a = _make(case, kern, center, reg_a)
     if case.get("past") and regk in ("none", "krr"):
@@ -265,6 +279,14 @@ def run(case, j):
         return -(l_kpca + l_krr)
 
     T_n = np.asarray(est_a.transform(X))
+    # the documented weights from the latent space to the targets are the least-squares ones (pseudo-inverse of the
+    # training projections applied to the y handed to fit): predictions of the training set are that image
+    svT = np.linalg.svd(T_n, compute_uv=False)
+    if svT[-1] > 1e-5 * svT[0]:
+        Yf2 = np.asarray(fit_Y, dtype=float).reshape(n, -1)
+        img = T_n @ np.linalg.lstsq(T_n, Yf2, rcond=None)[0]
+        j.close("predict(training set) == least-squares image of the fitted targets on the training projections", np.asarray(est_a.predict(X)).reshape(n, -1), img, 1e-9 * (svT[0] / svT[-1]) ** 2 * max(float(np.abs(Yf2).max()), 1e-300), {"reg": regk, "center": center, "kernel": kern})
+        j.note("least_squares_images_judged")
     want_tr = loss(Kc, Kc, Kc, T_n, T_n, fit_Y, est_a.predict(X))
     if case.get("reject") and kern != "precomputed":
         # a failure in the history: queries with the wrong number of features are refused; the later legal ones stand
